@@ -36,6 +36,12 @@ CHECKS = {
  "C07": ("deterministic simulation (run-time facet only): scripted matchers/mismatches inside faulty test runs; assertThat/expectThat behaviour checked against the reference model",
          "seeded exploration of the run-time facet: assertThat/assert_that raise iff mismatch, expectThat never raises yet the finished test fails, mismatch details survive under non-clobbering names",
          "NARROW SCOPE: str()/describe()/get_details()/str(MismatchError)/text_repr of stock matchers are pure functions of their input - not a simulation target, not decided (DESIGN section 4)", "3/C07"),
+ "C12": ("deterministic simulation: baton-passed threads under a seeded scheduler (random walk / PCT bounded pre-emption / sticky, yield points at semaphore ops and target calls, line-level pre-emption in traced runs) + target fault plans; event log checked for per-call contiguity and block shape",
+         "seeded exploration of interleavings and target faults: every forwarder call's target events are contiguous, blocks have the right shape/order/start time/tags, the semaphore is free afterwards, no schedule deadlocks",
+         "pre-emption granularity: synchronisation points, target calls, source lines of real.py in traced runs; after a fired fault tag contents are not compared; sampling (PCT bounded-pre-emption sampling, not exhaustive enumeration)", "3/C12"),
+ "C13": ("deterministic simulation: the real Concurrent(Stream)TestSuite.run on a simulated main thread with Thread/Semaphore/Queue rebound to simulator objects; seeded schedules + fault plans (result raises, make_tests/wrap_result raise, KeyboardInterrupt inside get/join/start, crashing runners); deadlock detector and step cap",
+         "seeded exploration: each sub-suite run once on its own thread, all joined before return, every event delivered once in worker order with route code and timestamp, broken-runner reported, abort propagates and running workers are told to stop, no deadlock",
+         "workers honour shouldStop; route codes are strings; 'told to stop' is read when run() unwinds; sampling, not proof", "3/C13"),
 }
 
 NOT_APPLICABLE = [
